@@ -49,6 +49,52 @@ pub fn to_gamma(t: TC, xs: &[f32]) -> Result<Vec<f32>, String> {
     Ok(unpack(rgb.data(), xs.len()))
 }
 
+/// Pixel-level conversion (no packing): gamma -> linear (`g == false`) or linear -> gamma.
+pub fn conv_px(t: TC, g: bool, px: &[[f32; 3]]) -> Result<Vec<[f32; 3]>, String> {
+    let len = px.len();
+    let (w, h) = crate::img::shape_of(len);
+    if g {
+        let lin = LinearRgb::new(px.to_vec(), w, h).map_err(|e| format!("{e:?}"))?;
+        let rgb = guarded(|| Rgb::try_from((lin, t, CP::BT709)))?.map_err(|e| format!("conversion error {e:?}"))?;
+        Ok(rgb.data().to_vec())
+    } else {
+        let rgb = Rgb::new(px.to_vec(), w, h, t, CP::BT709).map_err(|e| format!("{e:?}"))?;
+        let lin = guarded(|| LinearRgb::try_from(rgb))?.map_err(|e| format!("conversion error {e:?}"))?;
+        Ok(lin.data().to_vec())
+    }
+}
+
+/// The curves are supposed to act on each component independently of the other two. The packed
+/// evaluation above puts three *neighbouring* values into one pixel; these two layouts put each
+/// value next to zeros (a dark saturated pixel) and next to two distant values.
+/// Returns (value, output) pairs that the caller compares with the oracle, or a violation text.
+fn independent_layouts(t: TC, g: bool, xs: &[f32]) -> Result<Vec<(f32, f32)>, (usize, String)> {
+    let n = xs.len();
+    let z0 = conv_px(t, g, &[[0.0; 3]]).map_err(|e| (0, e))?[0][0];
+    // (x,0,0), (0,x,0), (0,0,x) in turn
+    let placed: Vec<[f32; 3]> = xs.iter().enumerate().map(|(i, &x)| { let mut p = [0.0f32; 3]; p[i % 3] = x; p }).collect();
+    let out = conv_px(t, g, &placed).map_err(|e| (0, e))?;
+    let mut pairs = Vec::with_capacity(4 * n);
+    for i in 0..n {
+        for k in 0..3 {
+            if k == i % 3 {
+                pairs.push((xs[i], out[i][k]));
+            } else if out[i][k].to_bits() != z0.to_bits() {
+                return Err((i, format!("component {k} of the pixel with {:e} in slot {} and zeros elsewhere came out as {:e}; a zero alone gives {:e}", xs[i], i % 3, out[i][k], z0)));
+            }
+        }
+    }
+    // three distant values per pixel
+    let distant: Vec<[f32; 3]> = (0..n).map(|i| [xs[i], xs[(i + n / 3) % n], xs[(i + 2 * n / 3) % n]]).collect();
+    let out = conv_px(t, g, &distant).map_err(|e| (0, e))?;
+    for i in 0..n {
+        for k in 0..3 {
+            pairs.push((distant[i][k], out[i][k]));
+        }
+    }
+    Ok(pairs)
+}
+
 pub const DISTINCT: [TC; 9] = [
     TC::BT1886,
     TC::BT470M,
@@ -160,6 +206,29 @@ fn check_curve(acc: &mut Acc, t: TC, g: bool, base: u64, xs: &[f32]) {
     }
     acc.bucket("within budget", xs.len() as u64);
     acc.worst(&format!("abs_err/budget {t:?} {}", dir_name(g)), worst / budget, || mk(wx));
+    // component independence: the same values next to zeros and next to distant values
+    acc.transitions += 2 * xs.len() as u64;
+    match independent_layouts(t, g, xs) {
+        Ok(pairs) => {
+            for (x, y) in pairs {
+                let exp = if g { tc_to_gamma(t, x as f64) } else { tc_to_linear(t, x as f64) }.unwrap();
+                let e = (y as f64 - exp).abs();
+                if !(e < budget) {
+                    acc.violation(
+                        base,
+                        format!("curve-mismatch tc={t:?} dir={} (component not independent of its neighbours)", dir_name(g)),
+                        format!("x={x:e} (bits {:#x}) next to other component values -> {y:e}, definition gives {exp:.9e}: error {e:.3e} >= {budget:e}", x.to_bits()),
+                        mk(x),
+                    );
+                    return;
+                }
+            }
+            acc.bucket("same values next to zeros / distant values: within budget", xs.len() as u64);
+        }
+        Err((i, e)) => {
+            acc.violation(base + i as u64, format!("curve-mismatch tc={t:?} dir={} (component not independent of its neighbours)", dir_name(g)), e, mk(xs[i.min(xs.len() - 1)]));
+        }
+    }
 }
 
 fn check_alias(acc: &mut Acc, alias: TC, g: bool, base: u64, xs: &[f32]) {
@@ -237,6 +306,15 @@ pub fn run(tier: Tier) -> Report {
             });
             rep.acc.merge(acc);
             base += total;
+            // one large image per curve and direction
+            if !light() {
+                let big = 3 * BIG_SIZES[1] as u64;
+                let xs: Vec<f32> = (0..big).map(|k| dom.slice((k * 7919) % total, (k * 7919) % total + 1)[0]).collect();
+                let mut acc = Acc::default();
+                check_curve(&mut acc, t, g, base, &xs);
+                crate::img::refine_violations(&mut acc, base, &xs, 3, &|a, it| check_curve(a, t, g, 0, it), &f32s_json);
+                rep.acc.merge(acc);
+            }
         }
         for &t in ALIASES.iter() {
             let acc = par_chunks_varied(total, chunk, |acc, lo, hi| {
@@ -321,6 +399,28 @@ fn check_rt(acc: &mut Acc, t: TC, base: u64, xs: &[f32]) {
     }
     acc.bucket("identity within budget", xs.len() as u64);
     acc.worst(&format!("abs_err/budget {t:?}"), worst / budget, || mk(wx));
+    // the same values as dark saturated pixels (x,0,0), (0,x,0), (0,0,x): the zeros must come back
+    // as a lone zero does, the value within its budget
+    acc.transitions += 2 * xs.len() as u64;
+    let rt = |px: &[[f32; 3]]| conv_px(t, false, px).and_then(|l| conv_px(t, true, &l));
+    let placed: Vec<[f32; 3]> = xs.iter().enumerate().map(|(i, &x)| { let mut p = [0.0f32; 3]; p[i % 3] = x; p }).collect();
+    if let (Ok(z), Ok(o)) = (rt(&[[0.0; 3]]), rt(&placed)) {
+        for i in 0..xs.len() {
+            for k in 0..3 {
+                let bad = if k == i % 3 { !(((o[i][k] as f64) - xs[i] as f64).abs() < budget) } else { o[i][k].to_bits() != z[0][0].to_bits() };
+                if bad {
+                    acc.violation(
+                        base + i as u64,
+                        format!("gamma-roundtrip tc={t:?} (component not independent of its neighbours)"),
+                        format!("pixel with {:e} in slot {} and zeros elsewhere came back as {}", xs[i], i % 3, px3s(o[i])),
+                        mk(xs[i]),
+                    );
+                    return;
+                }
+            }
+        }
+        acc.bucket("dark saturated pixels (x,0,0): identity within budget, zeros untouched", xs.len() as u64);
+    }
 }
 
 pub fn run_c10(tier: Tier) -> Report {
